@@ -85,13 +85,15 @@ fn c12_o1_kbucket_add_step() {
 //@ cap: 1200
 //@ standins: vcoll
 //@ desc: KBucket::add update rule with public IPs (secure and insecure ids): a known id is replaced iff incoming is BEP42-secure or (existing insecure and same IP); never two entries with one id
-//@ bounds: bucket of 1 + 1 incoming with the same id bytes, IPs from {8.8.8.8, 1.2.3.4}, symbolic BEP42 prefix and r; unwind 21
-//@ stubs: std::time::Instant::now -> symbolic whole-second clock
+//@ bounds: bucket of 1 + 1 incoming with the same id bytes, IPs from {8.8.8.8, 1.2.3.4}, symbolic BEP42 prefix and r; unwind 21; P: at most 4 distinct (ip, r) arguments
+//@ stubs: std::time::Instant::now -> symbolic whole-second clock; id::id_prefix_ipv4 (BEP42 CRC32C) -> uninterpreted function P(ip, r) (ghost table; the real CRC is bound by C19.O3 / C11.O1)
 //@ functions: KBucket::add, Node::is_secure, Id::is_valid_for_ip
 #[kani::proof]
 #[kani::stub(std::time::Instant::now, clock::now)]
+#[kani::stub(crate::common::id::id_prefix_ipv4, crate::verif_env::ufp::prefix)]
 #[kani::unwind(21)]
 fn c12_o1b_kbucket_update_rule() {
+    crate::verif_env::ufp::arm(kani::any());
     clock::set(0);
     let existing = any_public_node_160();
     let ip = if kani::any() { [8, 8, 8, 8] } else { [1, 2, 3, 4] };
@@ -111,6 +113,7 @@ fn c12_o1b_kbucket_update_rule() {
     kani::cover!(!r);
     kani::cover!(r && !inc.is_secure());
     std::mem::forget(b);
+    assert!(!crate::verif_env::cut_reached(), "CUT: more distinct (ip, r) pairs than P has slots");
 }
 
 //@ ob: C12.O2
@@ -179,14 +182,17 @@ fn direct_table(ns: Vec<Node>) -> RoutingTable {
 //@ cap: 2400
 //@ standins: vcoll
 //@ desc: RoutingTable::add into a built one-bucket table of 2 entries satisfying Inv: afterwards no entry has the table's id, ids are pairwise distinct, the per-IP rule holds pairwise, size() = number of entries, is_empty() agrees, nodes() yields exactly the entries, every entry sits in the bucket of its distance; a fresh acceptable node is added
-//@ bounds: table id all-zero, entries in distance class 160 with ids [0x80|b0,b1,b2,..,r] and IPs from {8.8.8.8, 1.2.3.4} (secure and insecure mixes); 2 entries + 1 incoming (incoming may be the table's own id class or any distance class 153..160); unwind 21
+//@ bounds: table id all-zero, entries in distance class 160 with ids [0x80|b0,b1,b2,..,r] and IPs from {8.8.8.8, 1.2.3.4} (secure and insecure mixes); 2 entries + 1 incoming (incoming may be the table's own id class or any distance class 153..160); unwind 21; P: at most 4 distinct (ip, r) arguments; RoutingTableIterator::next 163
 //@ inv: no self id; ids pairwise distinct; entry in bucket distance(self,id); per IP <= 1 insecure entry and no two secure entries with equal 21-bit prefix
-//@ stubs: std::time::Instant::now -> symbolic whole-second clock
+//@ stubs: std::time::Instant::now -> symbolic whole-second clock; id::id_prefix_ipv4 (BEP42 CRC32C) -> uninterpreted function P(ip, r) (ghost table; the real CRC is bound by C19.O3 / C11.O1)
 //@ functions: RoutingTable::{add,size,is_empty,nodes}, KBucket::add, Node::already_exists, Id::distance
+//@ unwindset: RoutingTableIterator = 163
 #[kani::proof]
 #[kani::stub(std::time::Instant::now, clock::now)]
+#[kani::stub(crate::common::id::id_prefix_ipv4, crate::verif_env::ufp::prefix)]
 #[kani::unwind(21)]
 fn c12_o3_table_add_step() {
+    crate::verif_env::ufp::arm(kani::any());
     clock::set(0);
     let n1 = any_public_node_160();
     let n2 = any_public_node_160();
@@ -247,6 +253,7 @@ fn c12_o3_table_add_step() {
     kani::cover!(!r && d != 0);
     std::mem::forget(es);
     std::mem::forget(rt);
+    assert!(!crate::verif_env::cut_reached(), "CUT: more distinct (ip, r) pairs than P has slots");
 }
 
 //@ ob: C14.O1
@@ -255,13 +262,15 @@ fn c12_o3_table_add_step() {
 //@ standins: vcoll
 //@ also: C12
 //@ desc: refresh on contact: the table holds X (added at t0); at t1 the call handle_response makes for an expected reply -- routing_table.add(Node::new(X.id, X.addr)) -- leaves exactly one entry for X whose last_seen is t1 (so a peer that keeps answering is never stale); with a second unrelated entry present too
-//@ bounds: X with symbolic id bytes and IP from {8.8.8.8 (id may be secure or not), 10.0.0.7 (private)}; a second entry with a different IP; t0 <= t1 symbolic (<= 2^20 s); unwind 21
-//@ stubs: std::time::Instant::now -> symbolic whole-second clock
+//@ bounds: X with symbolic id bytes and IP from {8.8.8.8 (id may be secure or not), 10.0.0.7 (private)}; a second entry with a different IP; t0 <= t1 symbolic (<= 2^20 s); unwind 21; P: at most 4 distinct (ip, r) arguments
+//@ stubs: std::time::Instant::now -> symbolic whole-second clock; id::id_prefix_ipv4 (BEP42 CRC32C) -> uninterpreted function P(ip, r) (ghost table; the real CRC is bound by C19.O3 / C11.O1)
 //@ functions: RoutingTable::add, KBucket::add, Node::already_exists, Node::is_stale
 #[kani::proof]
 #[kani::stub(std::time::Instant::now, clock::now)]
+#[kani::stub(crate::common::id::id_prefix_ipv4, crate::verif_env::ufp::prefix)]
 #[kani::unwind(21)]
 fn c14_o1_refresh_on_contact() {
+    crate::verif_env::ufp::arm(kani::any());
     let t0: u64 = kani::any();
     let dt: u64 = kani::any();
     kani::assume(t0 < (1 << 20) && dt < (1 << 20));
@@ -298,6 +307,7 @@ fn c14_o1_refresh_on_contact() {
     kani::cover!(x.is_secure() && ip[0] == 8);
     kani::cover!(!x.is_secure());
     std::mem::forget(rt);
+    assert!(!crate::verif_env::cut_reached(), "CUT: more distinct (ip, r) pairs than P has slots");
 }
 
 //@ ob: C12.O4
@@ -305,13 +315,16 @@ fn c14_o1_refresh_on_contact() {
 //@ cap: 2400
 //@ standins: vcoll
 //@ desc: remove(id) deletes exactly the entry with that id (nothing else, no effect for unknown ids); reset_id(new) re-buckets every entry: afterwards each entry sits in the bucket of its distance to the new id, ids are distinct, nothing with the new id remains
-//@ bounds: 2-entry table (private IPs, symbolic id byte 1), symbolic removal id byte, new id [b0,0..] symbolic first byte; unwind 21
-//@ stubs: std::time::Instant::now -> symbolic whole-second clock
+//@ bounds: 2-entry table (private IPs, symbolic id byte 1), symbolic removal id byte, new id [b0,0..] symbolic first byte; unwind 21; P: at most 4 distinct (ip, r) arguments; RoutingTableIterator::next 163
+//@ stubs: std::time::Instant::now -> symbolic whole-second clock; id::id_prefix_ipv4 (BEP42 CRC32C) -> uninterpreted function P(ip, r) (ghost table; the real CRC is bound by C19.O3 / C11.O1)
 //@ functions: RoutingTable::{remove,reset_id,add,to_owned_nodes}, KBucket::remove
+//@ unwindset: RoutingTableIterator = 163
 #[kani::proof]
 #[kani::stub(std::time::Instant::now, clock::now)]
+#[kani::stub(crate::common::id::id_prefix_ipv4, crate::verif_env::ufp::prefix)]
 #[kani::unwind(21)]
 fn c12_o4_remove_and_rekey() {
+    crate::verif_env::ufp::arm(kani::any());
     clock::set(0);
     let n1 = any_private_node_160();
     let n2 = any_private_node_160();
@@ -360,6 +373,7 @@ fn c12_o4_remove_and_rekey() {
         std::mem::forget(es);
     }
     std::mem::forget(rt);
+    assert!(!crate::verif_env::cut_reached(), "CUT: more distinct (ip, r) pairs than P has slots");
 }
 
 //@ ob: C11.O3
@@ -367,13 +381,15 @@ fn c12_o4_remove_and_rekey() {
 //@ cap: 2700
 //@ standins: vcoll
 //@ desc: RoutingTable::closest(t) on a built 3-entry table: result has no duplicates, every element is a table entry, length = min(20, size) = 3, and it is ordered secure-first then XOR distance to t (the brute-force order)
-//@ bounds: 3 entries in one bucket (ids [0x80|b0,b1,b2,..,r], IPs 8.8.8.8 / 1.2.3.4 / 10.0.0.x), symbolic target bytes 0,1,19; unwind 21
-//@ stubs: std::time::Instant::now -> symbolic whole-second clock
+//@ bounds: 3 entries in one bucket (ids [0x80|b0,b1,b2,..,r], IPs 8.8.8.8 / 1.2.3.4 / 10.0.0.x), symbolic target bytes 0,1,19; unwind 21; P: at most 4 distinct (ip, r) arguments
+//@ stubs: std::time::Instant::now -> symbolic whole-second clock; id::id_prefix_ipv4 (BEP42 CRC32C) -> uninterpreted function P(ip, r) (ghost table; the real CRC is bound by C19.O3 / C11.O1)
 //@ functions: RoutingTable::closest, ClosestNodes::add
 #[kani::proof]
 #[kani::stub(std::time::Instant::now, clock::now)]
+#[kani::stub(crate::common::id::id_prefix_ipv4, crate::verif_env::ufp::prefix)]
 #[kani::unwind(21)]
 fn c11_o3_table_closest() {
+    crate::verif_env::ufp::arm(kani::any());
     clock::set(0);
     let n1 = any_public_node_160();
     let n2 = any_public_node_160();
@@ -399,6 +415,7 @@ fn c11_o3_table_closest() {
     kani::cover!(same(&out[2], &n3));
     std::mem::forget(out);
     std::mem::forget(rt);
+    assert!(!crate::verif_env::cut_reached(), "CUT: more distinct (ip, r) pairs than P has slots");
 }
 
 impl RoutingTable {
